@@ -312,13 +312,14 @@ func (w *c29World) cleanupTo(r *vmc.Result, survivors string) bool {
 	for i := 0; i < 8*c29Probes; i++ {
 		w.restore(before, order)
 		w.f.cleanup()
-		r.Add("real_cleanup_runs", 1)
 		after := w.snapshot()
 		if c29KeySet(after) == survivors {
+			r.Add("real_cleanup_runs", int64(i+1))
 			w.restore(after, nil)
 			return true
 		}
 	}
+	r.Add("real_cleanup_runs", int64(8*c29Probes))
 	w.restore(before, nil)
 	return false
 }
@@ -461,8 +462,8 @@ func TestVerif_C29(t *testing.T) {
 	}
 	if r.Thorough() {
 		configs = []c29Bounds{
-			{name: "flood", maxCache: 2, maxGenuine: 2, maxForged: 4, stamps: stamps, ticks: ticks, forgeKinds: []string{"badsig", "unsigned", "stale"}, depth: 8},
-			{name: "crowd", maxCache: 1, maxGenuine: 3, maxForged: 1, stamps: stamps, ticks: ticks, forgeKinds: []string{"badsig"}, depth: 7},
+			{name: "crowd", maxCache: 1, maxGenuine: 3, maxForged: 1, stamps: stamps, ticks: ticks, forgeKinds: []string{"badsig"}, depth: 5},
+			{name: "flood", maxCache: 2, maxGenuine: 2, maxForged: 3, stamps: stamps, ticks: ticks, forgeKinds: []string{"badsig", "unsigned", "stale"}, depth: 7},
 		}
 	}
 
